@@ -12,6 +12,8 @@ pub enum Frag {
     Stream,
     StreamNoFail,
     SeqNoFail,
+    /// F-seq restricted to the fragment of C16: no fallible instruction under a par without an xor in between
+    SeqStrict,
 }
 
 pub struct Case {
@@ -30,6 +32,7 @@ pub fn mk_gen(rng: &mut Rng, frag: Frag, thorough: bool) -> GenCfg {
         Frag::Stream => GenCfg::fstream(n_peers, budget),
         Frag::StreamNoFail => GenCfg::fstream_nofail(n_peers, budget),
         Frag::SeqNoFail => GenCfg { errors: false, never: false, par_joins: false, ..GenCfg::fseq(n_peers, budget) },
+        Frag::SeqStrict => GenCfg { strict_guard: true, ..GenCfg::fseq(n_peers, budget) },
     };
     g.max_depth = if thorough { rng.range(4, 9) } else { rng.range(3, 7) };
     g
